@@ -106,6 +106,14 @@ impl<KV, S> Server<KV, S> {
     }
 }
 
+#[cfg(feature = "verif")]
+impl<KV, S> Server<KV, S> {
+    /// The address the listener is bound to (verification hook).
+    pub fn verif_local_addr(&self) -> std::io::Result<std::net::SocketAddr> {
+        self.listener.listener.local_addr()
+    }
+}
+
 impl<KV, S> Server<KV, S>
 where
     KV: KeyValueStorage,
@@ -141,9 +149,13 @@ where
         // channel's received will block forever because we still holding the last
         // sender instance.
         drop(self.listener.shutdown_complete_tx);
+        #[cfg(feature = "verif")]
+        crate::verif::point("srv.run_dropped_senders", &[]);
 
         // Awaiting for all active connections to finish processing.
         self.listener.shutdown_complete_rx.recv().await;
+        #[cfg(feature = "verif")]
+        crate::verif::point("srv.run_return", &[]);
     }
 }
 
@@ -192,11 +204,24 @@ where
             // in, `forget()` is use to drop the semaphore handle without releasing
             // the permit at the end of this scope.
             self.limit_connections.acquire().await.unwrap().forget();
+            #[cfg(feature = "verif")]
+            crate::verif::point(
+                "srv.permit_acquired",
+                &[("available", self.limit_connections.available_permits() as u64)],
+            );
 
             // Accepts a new connection and retries on error. If this function
             // returns an error, it means that the server could not accept any
             // new connection and it is aborting.
             let socket = self.accept().await?;
+            #[cfg(feature = "verif")]
+            crate::verif::point(
+                "srv.accepted",
+                &[(
+                    "peer_port",
+                    socket.peer_addr().map(|a| a.port() as u64).unwrap_or(0),
+                )],
+            );
 
             // Creating the handler's state for managing the new connection
             let handler = Handler {
@@ -265,5 +290,10 @@ impl<KV> Drop for Handler<KV> {
         // in the `Drop` implementation ensures that the permit is always
         // automatically returned when the handler finishes
         self.limit_connections.add_permits(1);
+        #[cfg(feature = "verif")]
+        crate::verif::point(
+            "srv.handler_drop",
+            &[("available", self.limit_connections.available_permits() as u64)],
+        );
     }
 }
